@@ -361,10 +361,14 @@ unsafe impl<'b> Trace for Roots<'b> {
         // Since this vm's stack is already borrowed in self we need to manually mark it to prevent
         // it from being traced normally
         gc.mark(&self.vm);
+        #[cfg(gluon_verif)]
+        let verif_prev = gc.verif_enter_thread(self.vm.verif_heaps.0, self.vm.verif_heaps.1);
         self.stack.trace(gc);
 
         // Traverse the vm's fields, avoiding the stack which is traced above
         self.vm.trace_fields_except_stack(gc);
+        #[cfg(gluon_verif)]
+        gc.verif_leave_heap(verif_prev);
     }
 }
 
@@ -481,6 +485,11 @@ pub struct Thread {
 
     #[cfg_attr(feature = "serde_derive", serde(skip))]
     interrupt: AtomicBool,
+
+    /// Id of this thread's heap and of the heap of its parent (the global heap for a root thread)
+    #[cfg(gluon_verif)]
+    #[cfg_attr(feature = "serde_derive", serde(skip))]
+    verif_heaps: (u32, u32),
 }
 
 impl fmt::Debug for Thread {
@@ -503,8 +512,12 @@ unsafe impl Trace for Thread {
         // Ditto
     }
     fn trace(&self, gc: &mut Gc) {
+        #[cfg(gluon_verif)]
+        let verif_prev = gc.verif_enter_thread(self.verif_heaps.0, self.verif_heaps.1);
         self.trace_fields_except_stack(gc);
         self.context.lock().unwrap().stack.trace(gc);
+        #[cfg(gluon_verif)]
+        gc.verif_leave_heap(verif_prev);
     }
 }
 
@@ -676,10 +689,21 @@ impl RootedThread {
             child_threads: Default::default(),
             interrupt: AtomicBool::new(false),
             thread_index: usize::max_value(),
+            #[cfg(gluon_verif)]
+            verif_heaps: (0, 0),
         };
 
         let ptr = unsafe {
             let mut gc = Gc::new(Generation::default(), usize::MAX);
+            #[cfg(gluon_verif)]
+            let thread = {
+                let mut thread = thread;
+                thread.verif_heaps = (
+                    thread.context.get_mut().unwrap().gc.verif_id(),
+                    gc.verif_id(),
+                );
+                thread
+            };
             let mut ptr = gc
                 .alloc_owned(Move(thread))
                 .expect("Not enough memory to allocate thread")
@@ -763,6 +787,14 @@ impl Thread {
             child_threads: Default::default(),
             interrupt: AtomicBool::new(false),
             thread_index: usize::max_value(),
+            #[cfg(gluon_verif)]
+            verif_heaps: (0, 0),
+        };
+        #[cfg(gluon_verif)]
+        let vm = {
+            let mut vm = vm;
+            vm.verif_heaps = (vm.context.get_mut().unwrap().gc.verif_id(), self.verif_heaps.0);
+            vm
         };
         // Enter the top level scope
         {
@@ -949,6 +981,30 @@ impl Thread {
 
     pub fn allocated_memory(&self) -> usize {
         self.owned_context().gc.allocated_memory()
+    }
+
+    /// `(heap id, parent heap id)` of this thread
+    #[cfg(gluon_verif)]
+    pub fn verif_heaps(&self) -> (u32, u32) {
+        self.verif_heaps
+    }
+
+    /// Number of values on the value stack and number of frames
+    #[cfg(gluon_verif)]
+    pub fn verif_stack_len(&self) -> (usize, usize) {
+        let context = self.owned_context();
+        (context.stack.len() as usize, context.stack.get_frames().len())
+    }
+
+    #[cfg(gluon_verif)]
+    pub fn verif_set_collect_limit(&self, limit: usize) {
+        self.owned_context().gc.verif_set_collect_limit(limit)
+    }
+
+    /// Id of the global (generation 0) heap
+    #[cfg(gluon_verif)]
+    pub fn verif_global_heap(&self) -> u32 {
+        self.global_state.gc.lock().unwrap().verif_id()
     }
 
     pub fn set_memory_limit(&self, memory_limit: usize) {
